@@ -122,6 +122,10 @@ def value_statuses(W, body, e, val, depth=0):
     if e[0] == "call" and e[1] in ("core::convert::Into::into", "core::convert::From::from") and e[3] and e[3][0][0] == "err":
         # `Err(e.into())` in a match arm is what `?` does with the same error
         return error_statuses(W, body, e[3][0], val)
+    if e[0] == "err":
+        # `Err(e)` where e is the error of another Result (a `?` written out as match / Err(From::from(e)) with an identity
+        # conversion): what `?` propagates
+        return error_statuses(W, body, e, val)
     if e[0] == "phi":
         pv = W.prov(body)
         sel = val.get(("def", e[1]))
@@ -260,10 +264,13 @@ def builder_chain(W, body, g, term, exit_site, val):
         t = t[3][0]
     else:
         return None
+    chained = set()      # call sites already applied as links of the chain (the first link's receiver is `&mut local`)
     while True:
         if t[0] == "mut":
             # builder held in a local and mutated through &mut: log the mutators that precede this exit
             for bb, callee, ai in pv.mutators(t[1]):
+                if bb in chained:
+                    continue
                 if ai != 0:
                     res["unknown"].append("builder passed as non-receiver to %s" % callee)
                     continue
@@ -282,6 +289,7 @@ def builder_chain(W, body, g, term, exit_site, val):
             continue
         if t[0] == "call" and t[1].startswith(RB):
             _apply_builder_call(res, t[1], t[3])
+            chained.add(t[2])
             t = t[3][0]
             continue
         if t[0] == "call" and t[1] in S.STATUS_CTORS:
@@ -341,14 +349,21 @@ def _passes(g, bb, exit_bb, val):
     return "never"
 
 
-def _feasible_error_variants(W, val):
+def _feasible_error_variants(W, val, g=None):
     """A valuation that fixes the ServerError variant of a workspace call to one the callee cannot produce (all of the
     callee's error exits are inspected) describes no execution: e.g. the NoSuchClient arm of an inlined error mapping
     applied to Server::txn, which only ever fails with Other."""
     for a, vs in val.items():
-        if a[0] != "VARIANT" or a[1][0] != "err":
+        if a[0] != "VARIANT":
             continue
-        x = P.strip_branch(a[1][1])
+        t = a[1]
+        if g is not None and t[0] != "err" and P.phi_locals(t):
+            # the error travelled inside a private error type built on another path (`NewClientError::Server(e)` made by a
+            # spliced `From` impl, matched again at the boundary): read it under the definitions this valuation selects
+            t = g.resolve_phis(t, val)
+        if t[0] != "err":
+            continue
+        x = P.strip_branch(t[1])
         if x[0] == "call" and x[1] in W.prog.bodies:
             can = server_error_variants(W, x[1])
             if can is not None and not (set(vs) & can):
@@ -378,7 +393,7 @@ def handler_outcomes(W, module):
     for site, term in S.exits(W, body):
         post = (site[0] == opbb) or g.may_follow(opbb, site[0])
         for val in g.vals_at(site):
-            if not _feasible_error_variants(W, val):
+            if not _feasible_error_variants(W, val, g):
                 continue
             rt = g.resolve_phis(term, val)
             o = Outcome(site, rt, val, "post" if post else "pre")
@@ -616,7 +631,7 @@ def c14_tables(rep, W, rule="C14"):
         for name, cnt in hit.items():
             nrows += 1 if cnt else 0
             rep.ob(rule, (fn, "row-present", name), cnt > 0, "protocol outcome %r is %s by the handler" % (name, "handled" if cnt else "NOT produced"), where(body), nontrivial=False)
-        rep.extra.setdefault("tables", {})[module] = sorted(set((n, tuple(s) if s else None) for n, s in table))
+        rep.extra.setdefault("tables", {})[module] = sorted(set((n, tuple(s) if s else None) for n, s in table), key=repr)
     rep.floor(rule, "protocol table rows realised", nrows, 18)
     rep.exhaustive = True
     # routes
@@ -915,7 +930,7 @@ def _is_len_sum(t, body_local_idx, chunk, len_name="bytes::bytes_mut::BytesMut::
         return False
     parts = [t[2], t[3]]
     has_body = any(p_[0] == "call" and p_[1] == len_name and p_[3][0][0] == "mut" and p_[3][0][1] == body_local_idx for p_ in parts)
-    has_chunk = any(p_[0] == "call" and p_[1] in ("bytes::bytes::Bytes::len",) and p_[3][0] == chunk for p_ in parts)
+    has_chunk = any(p_[0] == "call" and p_[1] in ("bytes::bytes::Bytes::len", "core::slice::<impl [T]>::len") and p_[3][0] == chunk for p_ in parts)
     return has_body and has_chunk
 
 
